@@ -249,11 +249,54 @@ class Ref:
 
 class CInterp:
     """Straight-line symbolic interpreter for the C subset used by the kernel helpers."""
-    def __init__(self, functions, facts=None, opaque=()):
+    def __init__(self, functions, facts=None, opaque=(), opaque_loops=False):
         self.functions = functions     # name -> FunctionDecl JSON
         self.facts = facts or {}       # condition text -> bool
         self.opaque = set(opaque)
+        self.opaque_loops = opaque_loops   # loops / undecided branches turn the variables they assign into opaque atoms
         self.depth = 0
+
+    def _havoc(self, node, env):
+        """Variables assigned anywhere inside `node` become opaque atoms acc_<name>."""
+        def lname(n):
+            n = c_strip(n)
+            k = n.get("kind")
+            if k == "DeclRefExpr":
+                return n["referencedDecl"]["name"]
+            if k in ("ArraySubscriptExpr", "MemberExpr"):
+                return lname(n["inner"][0])
+            if k == "UnaryOperator" and n.get("opcode") in ("*", "&"):
+                return lname(n["inner"][0])
+            return None
+        stack = [node]
+        local = set()
+        names = set()
+        while stack:
+            n = stack.pop()
+            if not isinstance(n, dict):
+                continue
+            k = n.get("kind")
+            if k == "VarDecl":
+                local.add(n.get("name"))
+            if k in ("BinaryOperator",) and n.get("opcode") == "=" or k == "CompoundAssignOperator":
+                nm = lname(n["inner"][0])
+                if nm:
+                    names.add(nm)
+            if k == "UnaryOperator" and n.get("opcode") in ("++", "--"):
+                nm = lname(n["inner"][0])
+                if nm:
+                    names.add(nm)
+            if k == "UnaryOperator" and n.get("opcode") == "&":
+                nm = lname(n["inner"][0])
+                if nm:
+                    names.add(nm)
+            stack.extend(n.get("inner", []) or [])
+        for nm in names - local:
+            cur = env.get(nm)
+            if isinstance(cur, Ref):
+                cur.env[cur.name] = sym("acc_" + cur.name)
+            else:
+                env[nm] = sym("acc_" + nm)
 
     # -- expressions ---------------------------------------------------
     def expr(self, n, env):
@@ -444,11 +487,16 @@ class CInterp:
         elif k == "ReturnStmt":
             v = self.expr(st["inner"][0], env) if st.get("inner") else None
             raise CInterp.Return(v)
+        elif k in ("ForStmt", "WhileStmt") and self.opaque_loops:
+            self._havoc(st, env)
         elif k == "DoStmt":
             # do { ... } while (0)
             body, cond = st["inner"][0], st["inner"][1]
             c = c_strip(cond)
             if not (c["kind"] == "IntegerLiteral" and c["value"] == "0"):
+                if self.opaque_loops:
+                    self._havoc(st, env)
+                    return
                 raise AnalysisError("nf: real do-while loop")
             sub = env
             self.stmt(body, sub)
@@ -458,6 +506,9 @@ class CInterp:
             els = inner[2] if len(inner) > 2 else None
             t = self.decide(cond, env)
             if t is None:
+                if self.opaque_loops:
+                    self._havoc(st, env)
+                    return
                 raise AnalysisError("nf: undecided branch `%s`" % c_text(cond))
             if t:
                 self.stmt(then, env)
